@@ -126,6 +126,9 @@ Sys(p, n, a, b, c, ret, errno, s, allocs) ==
 \* ---------------------------------------------------------------- result of Popen::create
 StreamCfg(i) == CASE i = 0 -> cfg.stdin [] i = 1 -> cfg.stdout [] OTHER -> cfg.stderr
 Invalid == cfg.stdin = "merge" \/ (cfg.stdout = "merge" /\ cfg.stderr = "merge")
+\* injected failures of the parent's read of the launch-status channel
+StatusReadInterrupted == cfg.has_fault /\ cfg.fault_kind = "read" /\ cfg.fault_errno = 4
+StatusUnreadable == cfg.has_fault /\ cfg.fault_kind = "read" /\ cfg.fault_errno # 4
 
 \* C15: index of the first PATH entry (non-empty) under which the command can be started; 0 if none
 FirstStartable ==
@@ -152,9 +155,11 @@ Result(r) ==
        \cup V(cfg.nul => ~r.ok /\ ~forked, "C06_nul_rejected")
        \* C07: a handle iff the image started; errors carry the errno of the failing step
        \cup V(r.ok => didExec, "C07_ok_only_if_started")
-       \cup V(~r.ok /\ ~Invalid /\ ~cfg.nul => ~didExec, "C07_err_only_if_not_started")
+       \* (when the parent's read of the launch-status channel fails for good it cannot know; when a signal handler merely
+       \* interrupted it -- EINTR = 4 -- it can, by reading again)
+       \cup V(~r.ok /\ ~Invalid /\ ~cfg.nul /\ ~StatusUnreadable => ~didExec, "C07_err_only_if_not_started")
        \cup V(cfg.has_fault /\ ~Invalid /\ ~cfg.nul /\ ~r.ok /\ r.errkind = "io" => r.errno = cfg.fault_errno, "C07_errno_of_failing_step")
-       \cup V(cfg.has_fault /\ ~Invalid /\ ~cfg.nul /\ cfg.fault_kind # "close" => ~r.ok, "C07_failure_reported")
+       \cup V(cfg.has_fault /\ ~Invalid /\ ~cfg.nul /\ cfg.fault_kind # "close" /\ ~StatusReadInterrupted => ~r.ok, "C07_failure_reported")
        \cup V(~cfg.expect_start /\ ~cfg.has_fault => ~r.ok /\ r.errkind = "io", "C07_failure_reported")
        \cup V(~cfg.expect_start /\ ~cfg.has_fault /\ cfg.class \in {"path-only-empty-local", "path-slash", "path-empty", "path-unset"}
                 => ~r.ok /\ r.errkind = "io", "C15_error_when_nothing_startable")
@@ -217,7 +222,7 @@ Report(r, held) ==
        \cup V(IF cfg.setpgid THEN r.pgid_is_pid ELSE r.pgid_is_parent_pgid, "C06_process_group")
        \cup V(cfg.has_expexe => r.exe = cfg.expexe, "C15_no_search_for_slash_or_empty_path")
        \cup V(cfg.has_path => r.exe = PathExpected, "C15_first_startable_runs")
-       \cup V(res.ok, "C07_started_but_error_returned")
+       \cup V(res.ok \/ StatusUnreadable, "C07_started_but_error_returned")
   /\ UNCHANGED <<cfg, base, pre, ptab, ctab, forked, nforks, execd, didExec, attempts, libpipes, maxAllocs, res,
                  penv, pcwd, pass, parentStdTouched>>
 
@@ -226,7 +231,7 @@ Report(r, held) ==
 \* (defined before use below)
 \* a child that started a program although create() returned an error
 StrayReport ==
-  /\ viol' = viol \cup {"C07_started_but_error_returned"}
+  /\ viol' = viol \cup (IF StatusUnreadable THEN {} ELSE {"C07_started_but_error_returned"})
   /\ UNCHANGED <<cfg, base, pre, ptab, ctab, forked, nforks, execd, didExec, attempts, libpipes, maxAllocs, res,
                  reported, penv, pcwd, pass, parentStdTouched, sanity>>
 
